@@ -579,15 +579,9 @@ package regclient
 // C11 "credentials ... are sent only to that registry": the entry the client creates for a host name
 // it has not seen yet is built from the client's DEFAULT host settings (which carry no credentials
 // of anybody) and from what was configured for that very name - never from another host's entry
-// (HostNewDefName copies its template whole, user, password, token and credential helper included),
-// and an entry is only ever merged with settings given for its own name.
+// (HostNewDefName copies its template whole, user, password, token and credential helper included).
 //@ callsite ~/config.HostNewDefName(def, name)
 //@   prop C11
 //@   name HostNewDefName/client
 //@   in ~
 //@   requires built-from-the-clients-default: def == caller.rc.hostDefault
-//@ callsite (*~/config.Host).Merge(newHost, log)
-//@   prop C11
-//@   name Host.Merge/client
-//@   in ~
-//@   requires merged-with-settings-for-its-own-name: recv == caller.rc.hosts[newHost.Name]
